@@ -81,9 +81,13 @@ def gen_spec(rng, n_max=8, allow_offsets=True, tier="quick", full_frac=0.15):
     s_choice = int(rng.integers(0, 4))
     s = [0.0, q(rng.uniform(0.01, 0.2), 1024), q(rng.uniform(0.5, 3), 64), q(rng.uniform(20, 80), 16)][s_choice] * scale
     theta = dict(P=P, e=e, omega=q(rng.uniform(0, 6.25), 256), M0=q(rng.uniform(0, 6.25), 256), s=s)
-    return dict(n_poly=n_poly, n_off=n_off, data_unit=data_unit, surveys=surveys, kprior=kprior, P_unit=P_unit, P0=P0, lin=lin, offs=offs,
+    spec = dict(n_poly=n_poly, n_off=n_off, data_unit=data_unit, surveys=surveys, kprior=kprior, P_unit=P_unit, P0=P0, lin=lin, offs=offs,
                 sigma_K0=(sigma_K0, sk_unit), max_K=max_K, theta=theta, s_choice=s_choice, nice=nice,
                 err_unit=(("m/s" if data_unit == "km/s" else "km/s") if rng.random() < 0.25 else None))
+    if s_choice and rng.random() < 0.4:
+        # the jitter column of the prior sample handed over in the other velocity unit (every entry point must convert it)
+        spec["smp_units"] = {"s": "m/s" if data_unit == "km/s" else "km/s"}
+    return spec
 
 
 def build_problem(spec):
@@ -99,7 +103,9 @@ def build_problem(spec):
 
     du = u.Unit(spec["data_unit"])
     kw = {}
-    if spec.get("t_ref") is not None and spec["n_off"] == 0:  # explicit reference epoch (single source only: the merge re-derives it)
+    if spec.get("t_ref") is False and spec["n_off"] == 0:  # data without a reference epoch
+        kw["t_ref"] = False
+    elif spec.get("t_ref") is not None and spec["n_off"] == 0:  # explicit reference epoch (single source only: the merge re-derives it)
         from astropy.time import Time
 
         # the same instant may be given in another time scale (spec["t_ref_scale"]): the number below is the TCB value
